@@ -698,7 +698,7 @@ where
             2 => arr!(Ix2),
             3 => arr!(Ix3),
             4 => arr!(Ix4),
-            _ => unreachable!(),
+            _ => arr!(Dyn), // no static type for more than 4 query axes here
         },
         "interp_array/dyn" => arr!(Dyn),
         "interp_array_into/static" => match qshape.len() {
@@ -707,7 +707,7 @@ where
             2 => arr_into!(Ix2, Ix3),
             3 => arr_into!(Ix3, Ix4),
             4 => arr_into!(Ix4, ndarray::Ix5),
-            _ => unreachable!(),
+            _ => arr_into!(Dyn, Dyn),
         },
         "interp_array_into/dyn" => arr_into!(Dyn, Dyn),
         _ => unreachable!("unknown call {call}"),
@@ -783,7 +783,7 @@ where
             2 => arr!(Ix2),
             3 => arr!(Ix3),
             4 => arr!(Ix4),
-            _ => unreachable!(),
+            _ => arr!(Dyn), // no static type for more than 4 query axes here
         },
         "interp_array/dyn" => arr!(Dyn),
         "interp_array_into/static" => match qshape.len() {
@@ -792,7 +792,7 @@ where
             2 => arr_into!(Ix2, Ix3),
             3 => arr_into!(Ix3, Ix4),
             4 => arr_into!(Ix4, ndarray::Ix5),
-            _ => unreachable!(),
+            _ => arr_into!(Dyn, Dyn),
         },
         "interp_array_into/dyn" => arr_into!(Dyn, Dyn),
         _ => unreachable!("unknown call {call}"),
